@@ -564,6 +564,29 @@ Lemma v3_set_keys_ok : forall s user aalg akey palg pkey seed a p,
         auth := a; privk := p; msg_id := msg_id s; request_id := request_id s |}.
 Proof. intros s user aalg akey palg pkey seed a p H. unfold v3_set_keys. rewrite H. reflexivity. Qed.
 
+(* set_keys as a transition: accepted = [v3_set_keys]; refused = only the user name is replaced, both keys (hence the cipher,
+   its salt counter and the digest key), the engine id, the clock and the ids are what they were *)
+Theorem set_keys_st_accepted : forall s user aalg akey palg pkey seed s',
+  v3_set_keys_st s user aalg akey palg pkey seed = (s', Ok tt) <-> v3_set_keys s user aalg akey palg pkey seed = Ok s'.
+Proof.
+  intros s user aalg akey palg pkey seed s'. unfold v3_set_keys_st.
+  destruct (v3_set_keys s user aalg akey palg pkey seed) as [s0|e|]; (split; intros H; inversion H; subst; reflexivity).
+Qed.
+
+Theorem set_keys_st_refused : forall s user aalg akey palg pkey seed s' e,
+  v3_set_keys_st s user aalg akey palg pkey seed = (s', Err e) ->
+  install_keys aalg akey palg pkey (engine_id s) seed = Err e /\ privk s' = privk s /\ auth s' = auth s /\ user_name s' = user /\ engine_id s' = engine_id s /\ engine_boots s' = engine_boots s /\ engine_time s' = engine_time s /\ msg_id s' = msg_id s /\ request_id s' = request_id s.
+Proof.
+  intros s user aalg akey palg pkey seed s' e H. unfold v3_set_keys_st, v3_set_keys in H.
+  destruct (install_keys aalg akey palg pkey (engine_id s) seed) as [[a p]|e0|]; cbn [bind] in H; inversion H; subst.
+  repeat split.
+Qed.
+
+Theorem set_keys_st_refused_when : forall s user aalg akey palg pkey seed e,
+  install_keys aalg akey palg pkey (engine_id s) seed = Err e ->
+  v3_set_keys_st s user aalg akey palg pkey seed = (with_user s user, Err e).
+Proof. intros s user aalg akey palg pkey seed e H. unfold v3_set_keys_st, v3_set_keys. rewrite H. reflexivity. Qed.
+
 (* the same for `new` *)
 Theorem v3_new_spec : forall eid user aalg akey palg pkey seed s,
   v3_new eid user aalg akey palg pkey seed = Ok s ->
@@ -871,6 +894,22 @@ Proof.
       * inversion E; subst. destruct (v3_recv_loop_failed _ _ _ _ _ Er) as [-> _]. auto.
       * inversion E; subst. destruct (v3_recv_loop_timeout_state _ _ _ Er) as [-> _]. auto.
     + inversion E; subst. destruct (v3_send_state _ _ _ _ _ _ Es) as (_ & S2 & _ & _ & S5 & S6 & _). auto.
+Qed.
+
+(* a deferred user whose keys the socket refuses: the probe was answered, the exception is the mapped refusal, and the session
+   is left as after the probe but for the user name - still to be refreshed, the user still deferred, no key changed *)
+Theorem refresh_discovery_refused_keys : forall ps io1 io2 seed u s d e,
+  ps_to_refresh ps = true -> ps_deferred ps = Some u ->
+  sock_refresh (ps_sock ps) io1 = StepOk s d ->
+  v3_set_keys_st s (usr_name u) (user_auth_alg u) (user_auth_key u) (user_priv_alg u) (user_priv_key u) seed = (with_user s (usr_name u), Err e) ->
+  py_refresh ps io1 io2 seed =
+  {| rr_session := {| ps_sock := with_user s (usr_name u); ps_to_refresh := true; ps_deferred := Some u |};
+     rr_sent := [d]; rr_raised := Some (err_to_exc e); rr_crashed := false |} /\ auth (with_user s (usr_name u)) = auth s /\ privk (with_user s (usr_name u)) = privk s /\ engine_id (with_user s (usr_name u)) = engine_id s.
+Proof.
+  intros ps io1 io2 seed u s d e Hto Hdef E K. split; [|repeat split].
+  unfold py_refresh. rewrite Hto, Hdef, E. cbn [negb]. unfold v3_set_keys_st in K.
+  destruct (v3_set_keys s (usr_name u) (user_auth_alg u) (user_auth_key u) (user_priv_alg u) (user_priv_key u) seed) as [s0|e0|];
+    inversion K; subst. reflexivity.
 Qed.
 
 (* the four parts together *)
